@@ -15,7 +15,7 @@ import (
 func init() {
 	Register(&Property{
 		ID: "C13",
-		Explanation: "Decides the absence of request-controlled nil dereferences and the classification of malformed input: (R13.1) a forward taint analysis marks every pointer a client can make nil -- elements of []*T and *T fields decoded from JSON (null / absent key), message-typed and oneof fields of protobuf request messages read by field selection or through getters -- follows them through calls, closures, variadic packing, append and struct fields across the keto functions reachable from every API entry point, and requires every dereference (field access, load, method call on a nil pointer/interface, non-comma-ok type assertion) to be dominated by a nil test of that value or of another load of the same field; a sink inside a goroutine started on the request path is process-fatal; (R13.2) every parser of request text (strconv.Parse*, uuid.FromString, JSON decoding) on a request path returns or writes, on its error branch, an error whose herodot status is 4xx, and errors of the mapping/validation layer are never re-wrapped as 5xx by a handler; (R13.3) each gRPC interceptor chain starts with the recovery interceptor and later interceptors are only appended, so a handler panic is answered instead of ending the process; (R13.4) the page size that reaches LIMIT and the has-more test is normalised (0 = default, negative rejected); (R13.5) the recursions that run on request input (OPL type check, expression parser, check engine) carry a termination certificate, since a stack overflow kills the process and cannot be recovered. " +
+		Explanation: "Decides the absence of request-controlled nil dereferences and the classification of malformed input: (R13.1) a forward taint analysis marks every pointer a client can make nil -- elements of []*T and *T fields decoded from JSON (null / absent key), message-typed and oneof fields of protobuf request messages read by field selection or through getters -- follows them through calls, closures, variadic packing, append and struct fields across the keto functions reachable from every API entry point, and requires every dereference (field access, load, method call on a nil pointer/interface, non-comma-ok type assertion) to be dominated by a nil test of that value or of another load of the same field; a sink inside a goroutine started on the request path is process-fatal; (R13.2) every parser of request text (strconv.Parse*, uuid.FromString, JSON decoding) on a request path returns or writes, on its error branch, an error whose herodot status is 4xx, and errors of the mapping/validation layer are never re-wrapped as 5xx by a handler; (R13.3) each gRPC interceptor chain starts with the recovery interceptor and later interceptors are only appended, so a handler panic is answered instead of ending the process; (R13.4) the page size that reaches LIMIT and the has-more test is normalised (0 = default, negative rejected), and no allocation on a request path is sized by the page size or the depth; (R13.5) the recursions that run on request input (OPL type check, expression parser, check engine) carry a termination certificate, since a stack overflow kills the process and cannot be recovered. " +
 			"Not decided: that state is unchanged on a 4xx (partly C04/C05), exhaustion, panics inside libraries.",
 		Assumptions: []string{
 			"protobuf-go never delivers nil elements in repeated fields, nor a nil message inside a set oneof wrapper, for messages decoded from the wire",
@@ -86,6 +86,7 @@ func runC13(c *Ctx) {
 
 	r132(c, entries)
 	r133(c)
+	r134alloc(c, entries)
 	// R13.4
 	r073(c)
 	for _, o := range r.Obls {
@@ -419,4 +420,144 @@ func isEmptySlice(v ssa.Value) bool {
 		}
 	}
 	return false
+}
+
+// ---- R13.4 (allocation part): no allocation is sized by a request integer -----------------------
+
+// r134alloc: the page size and the depth are the integers a client controls
+// (both only bounded below). Neither may size an allocation: make([]T, n) /
+// make([]T, 0, n) / make(map, n) with n derived from them panics ("cap out of
+// range") or exhausts memory for a large value, before any row is read.
+func r134alloc(c *Ctx, entries []core.Entry) {
+	p, r := c.P, c.R
+	var roots []*ssa.Function
+	for _, e := range entries {
+		roots = append(roots, e.Fn)
+	}
+	reach := p.KG().ReachLive(roots, nil).Parent
+	isReqIntField := func(fv *types.Var) bool {
+		if fv == nil {
+			return false
+		}
+		switch fv.Name() {
+		case "PerPage", "Size", "PageSize", "MaxDepth":
+			b, ok := fv.Type().Underlying().(*types.Basic)
+			return ok && b.Info()&types.IsInteger != 0
+		}
+		return false
+	}
+	n := 0
+	for f := range reach {
+		pk := core.FuncPkg(f)
+		if pk == nil || !core.IsKeto(pk) || strings.HasPrefix(pk.Path(), core.KetoMod+"/proto/") {
+			continue
+		}
+		core.Instrs(f, func(_ *ssa.BasicBlock, _ int, ins ssa.Instruction) {
+			var sizes []ssa.Value
+			switch x := ins.(type) {
+			case *ssa.MakeSlice:
+				sizes = []ssa.Value{x.Len, x.Cap}
+			case *ssa.MakeMap:
+				if x.Reserve != nil {
+					sizes = []ssa.Value{x.Reserve}
+				}
+			case *ssa.MakeChan:
+				sizes = []ssa.Value{x.Size}
+			default:
+				return
+			}
+			n++
+			src := ""
+			seen := map[ssa.Value]bool{}
+			var walk func(v ssa.Value, d int)
+			walk = func(v ssa.Value, d int) {
+				if v == nil || seen[v] || d > 10 || src != "" {
+					return
+				}
+				seen[v] = true
+				switch x := v.(type) {
+				case *ssa.BinOp:
+					walk(x.X, d+1)
+					walk(x.Y, d+1)
+				case *ssa.Convert:
+					walk(x.X, d+1)
+				case *ssa.ChangeType:
+					walk(x.X, d+1)
+				case *ssa.Phi:
+					for _, e := range x.Edges {
+						walk(e, d+1)
+					}
+				case *ssa.UnOp:
+					if fa, ok := x.X.(*ssa.FieldAddr); ok && x.Op == token.MUL {
+						if fv := fieldVarOf(fa); isReqIntField(fv) {
+							src = "field " + fv.Name()
+							return
+						}
+					}
+					walk(x.X, d+1)
+				case *ssa.Field:
+					if st, ok := x.X.Type().Underlying().(*types.Struct); ok && isReqIntField(st.Field(x.Field)) {
+						src = "field " + st.Field(x.Field).Name()
+					}
+				case *ssa.Call:
+					// min(a, b) bounds the value when one operand is not request controlled: not followed
+					if b, ok := x.Call.Value.(*ssa.Builtin); ok && b.Name() == "min" {
+						return
+					}
+					if obj := core.CalleeObj(&x.Call); obj != nil && (obj.Name() == "GetPageSize" || obj.Name() == "GetMaxDepth") {
+						src = "request getter " + obj.Name()
+					}
+				}
+			}
+			for _, s := range sizes {
+				walk(s, 0)
+			}
+			if src == "field PerPage" && !optsMayComeFromRequest(p, core.Outermost(f)) {
+				src = "" // the pagination options of this function are never supplied by a caller: PerPage is the default
+			}
+			if src != "" {
+				r.Violate("R13.4", core.FuncName(f), "allocation sized by a request integer", p.Pos(ins.Pos()),
+					"an allocation is sized by "+src+", which the client sets and which has no upper bound: a huge value panics in make (cap out of range) or exhausts memory before anything is read")
+			}
+		})
+	}
+	if n < 10 {
+		r.Undecide("R13.4", "", "allocations on request paths", "", fmt.Sprintf("%d make() found (floor 10)", n))
+	} else {
+		r.Discharge("R13.4", "", "allocations on request paths", "", fmt.Sprintf("none of the %d make() calls reachable from the API is sized by the page size or the depth", n))
+	}
+}
+
+// optsMayComeFromRequest: fn has a variadic pagination-options parameter that
+// some caller fills (or fn is reachable through an interface, where callers are
+// not enumerable). When every static call site passes no options the page size
+// inside fn is the built-in default.
+func optsMayComeFromRequest(p *core.Program, fn *ssa.Function) bool {
+	idx := -1
+	for i, par := range fn.Params {
+		if sl, ok := par.Type().Underlying().(*types.Slice); ok {
+			if n := core.NamedOf(sl.Elem()); n != nil && strings.Contains(n.Obj().Name(), "PaginationOption") {
+				idx = i
+			}
+		}
+	}
+	if idx < 0 {
+		return true
+	}
+	g := p.KG()
+	sites := 0
+	for _, e := range g.In[fn] {
+		if e.Kind != "static" {
+			return true // invoked through an interface / function value: callers unknown
+		}
+		ci, ok := e.Site.(ssa.CallInstruction)
+		if !ok || idx >= len(ci.Common().Args) {
+			return true
+		}
+		sites++
+		if c, isConst := ci.Common().Args[idx].(*ssa.Const); !isConst || !c.IsNil() {
+			return true
+		}
+	}
+	return sites == 0
 }
